@@ -3,7 +3,8 @@ CONSTANTS
   MaxBlocksAll = 1
   ExtraKinds <- NoKinds
   ExtraKindsAll <- NoKinds
+  SeacFull = FALSE
   BigCounts <- BigQuick
 SPECIFICATION Spec
-INVARIANTS MachineOK FormOK EncodingsOK GenExact EmitCase
+INVARIANTS MachineOK FormOK CharsetOK EncodingsOK GenExact EmitCase
 CHECK_DEADLOCK FALSE
